@@ -119,6 +119,12 @@ def r5_entries_guard(ck, F):
                 who = x.strip().a[0].strip().x["name"]
                 ed = bool_edges(b, value_site=site)
                 casts = [s for s, s_ in b.sites() if s.i is not None and s_["s"] == "assign" and s_["rv"]["rv"] == "cast" and s_["rv"]["to"] == "u32" and is_call(b.expr_of_operand(s_["rv"]["op"], s), "::len") and is_arg(b.expr_of_operand(s_["rv"]["op"], s).strip().a[0], who)]
+                # ... or the checked spelling of the same narrowing (`u32::try_from(x.len()).expect(..)`), possibly of a
+                # local that caches `x.len()`
+                for s2, c2, t2 in b.calls():
+                    e2 = b._expr_of_def((s2, "call", t2))
+                    if e2.k == "cast" and e2.x.get("checked") and e2.x.get("to") == "u32" and is_call(e2.a[0], "::len") and is_arg(e2.a[0].strip().a[0], who):
+                        casts.append(s2)
                 ok = ed is not None and diverges(b, ed[2]) and len(casts) >= 1 and all(b.dominates(site, c) for c in casts)
                 found += 1
                 ck.ob(R, f"entries-length-limit/{who}", ok, f"Entries::insert: assert!({who}.len() <= u32::MAX) dominates `{who}.len() as u32` in config {F.config}", b, site)
